@@ -8,6 +8,11 @@ Universe
            shard-group boundary so that the last two timestamps live in the next shard group)
   cell     '.' absent | 'B' f and g | 'F' f only (g null) | 'G' g only (f null)
   fields   f float (multiples of 0.5 so that sums are exact in every evaluation order), g int or string
+
+Typed family (TypedDataSet): the same three series over TEN timestamps T+0s .. T+90s and four fields of the four field types
+  f float | s string | i integer | b boolean       cell = a letter naming the set of fields the row carries (CELLS)
+The first series is long (9-10 rows) so that with batch size 1 or 2 more than 4 (and more than 8) batches of ONE output series
+flow through every operator: every fixed-size ring of chunks / records in the executor and the cursors wraps around.
 """
 import itertools, json
 
@@ -27,7 +32,117 @@ MENU = [
 ]
 
 
-class DataSet:
+TAGS = ["host", "region"]
+
+
+def lp_value(v):
+    """Line-protocol text of a field value, by Python type."""
+    if isinstance(v, bool):
+        return "true" if v else "false"
+    if isinstance(v, int):
+        return "%di" % v
+    if isinstance(v, float):
+        return "%r" % v
+    return '"%s"' % v.replace("\\", "\\\\").replace('"', '\\"')
+
+
+def lp_line(mst, si, t, fields):
+    s = SERIES[si]
+    return "%s,host=%s,region=%s %s %d" % (mst, s["host"], s["region"],
+                                          ",".join("%s=%s" % (k, lp_value(v)) for k, v in fields.items()), t)
+
+
+class _Base:
+    """What the driver and the evaluator need from a data set:
+       fields, T, idx, key(), to_json(), rows() -> [(si, ti, time_ns, {field: value})] (series-major, non-null fields only),
+       split_point()/split_halves(), batches(family) -> list of write batches [(si, ti, t, {field: value})]."""
+
+    def npoints(self):
+        return len(self.rows())
+
+    def nseries(self):
+        return len(set(r[0] for r in self.rows()))
+
+    def series_rows(self, si):
+        return [r for r in self.rows() if r[0] == si]
+
+    def split_point(self):
+        """(si, ti) of the row that the late layout completes after the flush: the newest point of the first series whose
+        newest point carries fields of both halves (the first half is written before the flush, the second after it);
+        None if there is no such row."""
+        if self.split_halves() is None:
+            return None
+        h1, h2 = self.split_halves()
+        for si in range(3):
+            sp = self.series_rows(si)
+            if sp and any(k in h1 for k in sp[-1][3]) and any(k in h2 for k in sp[-1][3]):
+                return (si, sp[-1][1])
+        return None
+
+    def batches(self, family):
+        """a: [everything]
+           b: [first, late]   late = the earliest point of every series that has >= 2 points (out of order w.r.t. the flushed
+                              file of that series) + the second half of split_point() (same row completed after the flush)
+           c: [first, second] points at the older timestamps (ti <= seq_cut) are flushed before the newer ones are written"""
+        rows = self.rows()
+        if family == "a":
+            return [rows]
+        if family == "b":
+            first, late = [], []
+            split = self.split_point()
+            h1, h2 = self.split_halves() or ((), ())
+            for si in range(3):
+                sp = self.series_rows(si)
+                for j, (s, ti, t, v) in enumerate(sp):
+                    if (s, ti) == split:
+                        first.append((s, ti, t, {k: x for k, x in v.items() if k in h1}))
+                        late.append((s, ti, t, {k: x for k, x in v.items() if k in h2}))
+                    elif len(sp) >= 2 and j == 0:
+                        late.append((s, ti, t, v))
+                    else:
+                        first.append((s, ti, t, v))
+            return [first, late]
+        if family == "c":
+            return [[r for r in rows if r[1] <= self.seq_cut], [r for r in rows if r[1] > self.seq_cut]]
+        raise KeyError(family)
+
+    def lines(self, mst, batch):
+        return [lp_line(mst, si, t, v) for si, ti, t, v in batch]
+
+    def counts(self, *batches_):
+        """{field: number of non-null values} over the given batches - what the visibility barrier waits for."""
+        c = {k: 0 for k in self.fields}
+        for b in batches_:
+            for _, _, _, v in b:
+                for k in v:
+                    c[k] += 1
+        return c
+
+    def has_seq(self):
+        a, b = self.batches("c")
+        return bool(a) and bool(b)
+
+    def has_late(self):
+        return bool(self.batches("b")[1])
+
+    # old names, still used by tools
+    def lines_all(self, mst):
+        return self.lines(mst, self.batches("a")[0])
+
+    def lines_late(self, mst):
+        a, b = self.batches("b")
+        return self.lines(mst, a), self.lines(mst, b)
+
+    def lines_seq(self, mst):
+        a, b = self.batches("c")
+        return self.lines(mst, a), self.lines(mst, b)
+
+
+class DataSet(_Base):
+    family = "fg"
+    fields = ["f", "g"]
+    seq_cut = 1
+
     def __init__(self, idx, cells, gtype="int", base="in"):
         self.idx, self.cells, self.gtype, self.base = idx, tuple(cells), gtype, base
         self.T = T_IN if base == "in" else T_STRADDLE
@@ -40,7 +155,12 @@ class DataSet:
 
     @staticmethod
     def from_json(o):
+        if o.get("family") == "typed":
+            return TypedDataSet(o.get("idx", 100), o["cells"], o.get("base", "in"))
         return DataSet(o.get("idx", 0), o["cells"], o.get("gtype", "int"), o.get("base", "in"))
+
+    def split_halves(self):
+        return ({"f"}, {"g"})
 
     def gval(self, si, ti):
         v = GV[si][ti]
@@ -59,72 +179,21 @@ class DataSet:
                 out.append((si, ti, t, f, g))
         return out
 
-    def npoints(self):
-        return sum(1 for p in self.cells for c in p if c != ".")
-
-    def nseries(self):
-        return sum(1 for p in self.cells if p.strip("."))
+    def rows(self):
+        out = []
+        for si, ti, t, f, g in self.points():
+            v = {}
+            if f is not None:
+                v["f"] = f
+            if g is not None:
+                v["g"] = g
+            out.append((si, ti, t, v))
+        return out
 
     def nvalues(self):
-        """(number of non-null f, number of non-null g) - used by the visibility barrier."""
-        pts = self.points()
-        return sum(1 for p in pts if p[3] is not None), sum(1 for p in pts if p[4] is not None)
-
-    # ---- line protocol -------------------------------------------------------------------------------------
-    def _line(self, mst, si, t, f, g):
-        fs = []
-        if f is not None:
-            fs.append("f=%r" % f)
-        if g is not None:
-            fs.append("g=%di" % g if self.gtype == "int" else 'g="%s"' % g)
-        s = SERIES[si]
-        return "%s,host=%s,region=%s %s %d" % (mst, s["host"], s["region"], ",".join(fs), t)
-
-    def lines_all(self, mst):
-        return [self._line(mst, si, t, f, g) for si, ti, t, f, g in self.points()]
-
-    def split_point(self):
-        """(si, ti) of the row that the late layout completes after the flush: the newest point of the first series whose
-        newest point carries both fields (f is written before the flush, g after it); None if there is no such row."""
-        pts = self.points()
-        for si in range(3):
-            sp = [p for p in pts if p[0] == si]
-            if sp and sp[-1][3] is not None and sp[-1][4] is not None:
-                return (si, sp[-1][1])
-        return None
-
-    def lines_late(self, mst):
-        """(first batch, late batch). Late = the earliest point of every series that has >= 2 points (out of order
-        w.r.t. the flushed file of that series) + the g field of split_point() (same row completed after the flush)."""
-        pts = self.points()
-        first, late = [], []
-        split = self.split_point()
-        for si in range(3):
-            sp = [p for p in pts if p[0] == si]
-            for j, (s, ti, t, f, g) in enumerate(sp):
-                if (s, ti) == split:
-                    first.append(self._line(mst, s, t, f, None))
-                    late.append(self._line(mst, s, t, None, g))
-                elif len(sp) >= 2 and j == 0:
-                    late.append(self._line(mst, s, t, f, g))
-                else:
-                    first.append(self._line(mst, s, t, f, g))
-        return first, late
-
-    def lines_seq(self, mst):
-        """(first batch, second batch) for the sequential layouts: points at the first two timestamps are flushed before the
-        points at the last two timestamps are written (a second, newer, in-order file / newer memtable rows)."""
-        first, second = [], []
-        for si, ti, t, f, g in self.points():
-            (first if ti <= 1 else second).append(self._line(mst, si, t, f, g))
-        return first, second
-
-    def has_seq(self):
-        a, b = self.lines_seq("m")
-        return bool(a) and bool(b)
-
-    def has_late(self):
-        return bool(self.lines_late("m")[1])
+        """(number of non-null f, number of non-null g)"""
+        c = self.counts(self.rows())
+        return c["f"], c["g"]
 
     def features(self):
         fs = set()
@@ -159,6 +228,79 @@ class DataSet:
         if sum(1 for p in pts if p[3] is not None) >= 5:
             fs.add("f_values_5")
         return fs
+
+
+# ---- typed family ------------------------------------------------------------------------------------------------
+TOFFS = [0, 10, 20, 30, 40, 50, 60, 70, 80, 90]
+CELLS = {"A": "fsib", "S": "s", "I": "i", "F": "f", "N": "sb", "M": "fi", "P": "fsi", "Q": "sib", "R": "fb"}
+BIG = 4503599627370497          # 2^52 + 1: written exactly; three of them sum to an odd number > 2^53 (no float64 holds it)
+TFV = [[-1.0, 2.5, 0.5, 4.0, 1.5, -2.0, 3.0, 2.5, 0.5, 7.0],
+       [1.5, 7.0, -2.0, 0.5, 2.5, 1.0, -1.0, 3.0, 0.5, 2.0],
+       [3.0, 2.5, -2.0, 8.0, 0.5, 1.5, 2.0, -1.0, 4.0, 1.0]]
+TIV = [[-2, 5, 0, 2, BIG, 3, BIG, 2, -7, BIG],
+       [4, BIG, 2, -1, 5, BIG, 0, 3, 2, BIG],
+       [BIG, 2, BIG, -3, 1, BIG, 6, 0, 2, -5]]
+TSV = [["v0", 'he said "hi", ü', "", "naïve 世界", "v0", "x=y z\\w", "a,b", "v0", "it's a longer string value 0123456789", "z"],
+       ["b0", "v0", "äö", "b3", 'q"', "v0", "b6", ",", "b8", "v0"],
+       ["c0", "c1", "v0", "c3", "c,4", "世", "v0", "c7", "", 'c"9']]
+TBV = [[True, False, False, True, True, False, True, False, False, True],
+       [False, True, True, False, False, True, False, True, True, False],
+       [True, True, False, False, True, False, False, True, False, True]]
+TVALS = {"f": TFV, "i": TIV, "s": TSV, "b": TBV}
+
+# per-series pattern menus of the typed family (odometer: s0 fastest).  The first series is the long one.
+TMENU = [
+    ["APNNMSAAQA", "SAAM.ANAAI"],
+    [".A...S....", "..N.M....A", ".........."],
+    ["..M..I...Q", "....A....."],
+]
+
+
+class TypedDataSet(_Base):
+    family = "typed"
+    fields = ["b", "f", "i", "s"]
+    seq_cut = 4
+
+    def __init__(self, idx, cells, base="in"):
+        self.idx, self.cells, self.base = idx, tuple(cells), base
+        self.gtype = "typed"
+        self.T = T_IN if base == "in" else T_STRADDLE
+
+    def key(self):
+        return "%s/typed/%s" % ("|".join(self.cells), self.base)
+
+    def to_json(self):
+        return {"family": "typed", "cells": list(self.cells), "base": self.base, "idx": self.idx}
+
+    def split_halves(self):
+        """No row of the typed family is completed after the flush: that layout feature belongs to known defect 5 (the field
+        filter is applied to the halves), which would only mask the typed field filters in the late layouts."""
+        return None
+
+    def rows(self):
+        out = []
+        for si, pat in enumerate(self.cells):
+            for ti, c in enumerate(pat):
+                if c == ".":
+                    continue
+                out.append((si, ti, (self.T + TOFFS[ti]) * NS, {k: TVALS[k][si][ti] for k in CELLS[c]}))
+        return out
+
+
+def typed_datasets():
+    """Odometer over TMENU restricted to >= 2 non-empty series; index 100.. (measurement names must not collide with the f/g
+    family); every second one straddles a shard-group boundary (two timestamps in the older shard group, eight in the newer)."""
+    out = []
+    n = 0
+    for c2 in TMENU[2]:
+        for c1 in TMENU[1]:
+            for c0 in TMENU[0]:
+                ds = TypedDataSet(100 + n, (c0, c1, c2), "straddle" if n % 2 == 1 else "in")
+                if ds.nseries() < 2:
+                    continue
+                out.append(ds)
+                n += 1
+    return out
 
 
 def all_datasets():
@@ -202,8 +344,17 @@ def datasets(tier):
 AGGS = ["count", "sum", "mean", "min", "max", "first", "last"]
 
 
+FIELD_PREDS = ("F1", "F2", "TF", "S1", "S2", "S3", "I1", "I2", "B1", "B2", "TS")
+S3_TEXT = 'he said "hi", ü'
+
+
 def _pred(name, ds):
-    """-> (text, tag_fn(series dict) | None, field_fn(f, g) | None)"""
+    """-> (text, tag_fn(series dict) | None, field_fn({field: value}) | None).  A comparison with a null field is false."""
+    def fv(fn, *names):
+        def g(v):
+            xs = [v.get(n) for n in names]
+            return all(x is not None for x in xs) and fn(*xs)
+        return g
     if name is None:
         return None, None, None
     if name == "T1":
@@ -215,14 +366,35 @@ def _pred(name, ds):
     if name == "T4":
         return "host = 'a' OR region = 'y'", (lambda s: s["host"] == "a" or s["region"] == "y"), None
     if name == "F1":
-        return "f > 1.5", None, (lambda f, g: f is not None and f > 1.5)
+        return "f > 1.5", None, fv(lambda f: f > 1.5, "f")
     if name == "F2":
-        if ds.gtype == "int":
-            return "g <= 2", None, (lambda f, g: g is not None and g <= 2)
-        return "g = 'v2'", None, (lambda f, g: g is not None and g == "v2")
+        if ds.gtype != "str":
+            return "g <= 2", None, fv(lambda g: g <= 2, "g")
+        return "g = 'v2'", None, fv(lambda g: g == "v2", "g")
     if name == "TF":
-        return "host = 'b' AND f > 0", (lambda s: s["host"] == "b"), (lambda f, g: f is not None and f > 0)
+        return "host = 'b' AND f > 0", (lambda s: s["host"] == "b"), fv(lambda f: f > 0, "f")
+    # typed family
+    if name == "S1":
+        return "s = 'v0'", None, fv(lambda s: s == "v0", "s")
+    if name == "S2":
+        return "s != 'v0'", None, fv(lambda s: s != "v0", "s")
+    if name == "S3":
+        return "s = '%s'" % S3_TEXT, None, fv(lambda s: s == S3_TEXT, "s")
+    if name == "I1":
+        return "i > 1", None, fv(lambda i: i > 1, "i")
+    if name == "I2":
+        return "i <= 2", None, fv(lambda i: i <= 2, "i")
+    if name == "B1":
+        return "b = true", None, fv(lambda b: b is True, "b")
+    if name == "B2":
+        return "b != true", None, fv(lambda b: b is not True, "b")
+    if name == "TS":
+        return "host = 'a' AND s != 'v0'", (lambda s: s["host"] == "a"), fv(lambda s: s != "v0", "s")
     raise KeyError(name)
+
+
+def is_field_pred(st):
+    return st["pred"] in FIELD_PREDS
 
 
 def _range(name, T):
@@ -245,6 +417,18 @@ def _range(name, T):
         return ("time >= %ds" % (T + 10), "time >= T+10s", (T + 10) * NS, None, [(T + 10) * NS])
     if name == "Re":
         return ("time < %ds" % (T + 20), "time < T+20s", None, (T + 20) * NS - 1, [0])
+    # typed family (ten timestamps T .. T+90s)
+    if name == "Ua":
+        return ("time >= %ds AND time < %ds" % (T + 5, T + 95), "time >= T+5s AND time < T+95s",
+                (T + 5) * NS, (T + 95) * NS - 1, [(T + 5) * NS])
+    if name == "Ub":
+        return ("time >= %ds AND time <= %ds" % (T + 20, T + 70), "time >= T+20s AND time <= T+70s",
+                (T + 20) * NS, (T + 70) * NS, [(T + 20) * NS])
+    if name == "Uc":
+        return ("time >= %ds AND time < %ds" % (T, T + 100), "time >= T AND time < T+100s",
+                T * NS, (T + 100) * NS - 1, [T * NS])
+    if name == "Ud":
+        return ("time >= %ds" % (T + 30), "time >= T+30s", (T + 30) * NS, None, [(T + 30) * NS])
     raise KeyError(name)
 
 
@@ -255,7 +439,7 @@ def stmt(sel, pred=None, rng=None, gbtag=None, w=None, fill=None, desc=False, li
 
 def render(st, ds, mst="m", relative=False):
     sel = st["sel"]
-    s = "SELECT %s FROM %s" % (sel if sel in ("f", "f,g") else "%s(f)" % sel, mst)
+    s = "SELECT %s FROM %s" % ("%s(f)" % sel if sel in AGGS else sel, mst)
     conds = []
     rt = _range(st["rng"], ds.T)
     if rt[0]:
@@ -289,7 +473,37 @@ def shape(st, ds):
 
 
 def is_agg(st):
-    return st["sel"] not in ("f", "f,g")
+    return st["sel"] in AGGS or "(" in st["sel"]
+
+
+def parse_sel(st):
+    """Select list -> items ('col', name) | ('agg', function, field) | ('star',).  The f/g family writes 'count' for count(f)."""
+    sel = st["sel"]
+    if sel in AGGS:
+        return [("agg", sel, "f")]
+    items = []
+    for p in sel.split(","):
+        p = p.strip()
+        if p == "*":
+            items.append(("star",))
+        elif p.endswith(")"):
+            fn, fld = p[:-1].split("(")
+            items.append(("agg", fn, fld))
+        else:
+            items.append(("col", p))
+    return items
+
+
+def agg_items(st):
+    return [it for it in parse_sel(st) if it[0] == "agg"]
+
+
+def single_selector(st):
+    """'first' / 'last' / 'min' / 'max' when the statement is exactly one call of that selector, else None."""
+    its = parse_sel(st)
+    if len(its) == 1 and its[0][0] == "agg" and its[0][1] in ("first", "last", "min", "max"):
+        return its[0][1]
+    return None
 
 
 def klass(st):
@@ -357,6 +571,113 @@ def statements(tier):
     return out
 
 
+TYPED_CALLS = {"s": ["count", "first", "last"], "b": ["count", "first", "last"],
+               "i": ["count", "sum", "mean", "min", "max", "first", "last"]}
+MULTI_CALLS = ["count(s),sum(i),mean(f)", "mean(i),count(b)"]
+
+
+def typed_statements(tier):
+    """Statements of the typed family (fields f float, s string, i integer, b boolean; tags host, region).
+    Only what the language defines: count/first/last on strings and booleans, all seven calls on integers, several calls in
+    one statement only without selectors and with the default fill, fill(0) only on integer results (count, integer
+    sum/min/max/first/last), no fill(<number>) on strings/booleans, tags only next to a field (and once alone: empty answer).
+    Not enumerated (known defect 3 of the f/g family, same code): first()/last() without GROUP BY time under ORDER BY time DESC."""
+    th = tier == "thorough"
+    out = []
+    # ---- plain selections
+    sels = ["s", "f,s", "s,i,b", "*", "f,host", "b"] + (["i", "s,host,region", "f,s,i,b", "i,b", "host"] if th else [])
+    preds = [None, "S1", "S2", "I1", "B1", "T1"] + (["S3", "I2", "B2", "TS"] if th else [])
+    for sel in sels:
+        for p in preds:
+            if not th and p == "T1" and sel not in ("s", "*"):
+                continue
+            rngs = [None, "Ub"] if (th or p in (None, "S2")) else [None]
+            for r in rngs:
+                if th:
+                    variants = [(None, False), (None, True), ((3, 2), False), ((3, 2), True), ((4, 0), True), ((2, 7), False)]
+                elif r is None and p is None:
+                    variants = [(None, False), (None, True), ((3, 2), False), ((4, 0), True)]
+                elif r is None:
+                    variants = [(None, False), ((3, 2), True)] if p in ("S1", "I1") else [(None, True), ((3, 2), False)]
+                else:
+                    variants = [(None, False), ((3, 2), True)]
+                for lim, desc in variants:
+                    out.append(stmt(sel, p, r, None, None, None, desc, lim))
+                if th or (r is None and p in (None, "I1")):
+                    for desc in (False, True):
+                        out.append(stmt(sel, p, r, "host", None, None, desc, None))
+                if th and r is None and p is None:
+                    out.append(stmt(sel, p, r, "region", None, None, False, None))
+    if not th:
+        out.append(stmt("host", None, None, None, None, None, False, None))
+    # ---- calls overall / per tag group
+    calls = ["%s(%s)" % (fn, fld) for fld in ("s", "b", "i") for fn in TYPED_CALLS[fld]] + MULTI_CALLS
+    for c in calls:
+        sel_fl = c.startswith("first(") or c.startswith("last(")
+        own = {"s": "S2", "b": "B1", "i": "I1"}.get(c[-2], "S1")
+        other = {"s": "I1", "b": "S2", "i": "B1"}.get(c[-2], "I1")
+        combos = [(None, None), (own, None), (other, None), (None, "Ud")]
+        if th:
+            combos += [("T1", None), ("S1", None), (None, "Ub"), (own, "Ub")]
+        for p, r in combos:
+            for gb in (None, "host") + (("region",) if th else ()):
+                if not th and gb == "host" and (p, r) not in ((None, None), (other, None)):
+                    continue
+                for desc in (False, True):
+                    if desc and (sel_fl or (not th and (p, r) != (None, None))):
+                        continue
+                    out.append(stmt(c, p, r, gb, None, None, desc, None))
+    # ---- calls per epoch-aligned time bucket (always explicit time bounds)
+    for c in calls:
+        multi = "," in c
+        int_result = c.startswith("count(") or (c[-2] == "i" and not c.startswith("mean("))
+        wf = [(10, None), (20, "none"), (10, "previous"), (30, None), (30, "0"), (20, "previous"), (10, "none"), (10, "0")] if th else \
+             [(10, None), (20, "none"), (10, "previous"), (30, "0")]
+        for w, fill in wf:
+            if fill == "0" and not int_result:
+                if th or multi:
+                    continue
+                fill = None                      # quick: the 30 s buckets with the default fill instead
+            if multi and fill is not None:
+                continue
+            for r in (["Ua", "Ub", "Uc"] if th else ["Ua"]):
+                for p in ([None, "T1", "I1"] if th else [None]):
+                    if th and p is not None and r != "Ua":
+                        continue
+                    for gb in (None, "host"):
+                        for desc in (False, True):
+                            if desc and not th and not ((w, gb) in ((10, None), (20, "host"))):
+                                continue
+                            out.append(stmt(c, p, r, gb, w, fill, desc, None))
+        if not th and not multi:
+            out.append(stmt(c, "I1" if c[-2] != "i" else "S2", "Ua", None, 10, None, False, None))
+    seen, uniq = set(), []
+    for s in out:
+        k = json.dumps(s, sort_keys=True)
+        if k not in seen:
+            seen.add(k)
+            uniq.append(s)
+    return uniq
+
+
+def statements_for(tier, ds):
+    return typed_statements(tier) if ds.family == "typed" else statements(tier)
+
+
+def groups(tier):
+    """Data sets in the groups in which they are loaded and run (one group = one pass through all layout phases).
+    quick: one group = the three f/g data sets + the first two typed data sets.  thorough: the f/g data sets in threes, the
+    first six groups carry two typed data sets each (so the typed family is complete before a deadline can cut)."""
+    fg = datasets(tier)
+    ty = typed_datasets()
+    if tier != "thorough":
+        return [fg + ty[:2]]
+    out = []
+    for gi in range(0, len(fg), 3):
+        out.append(fg[gi:gi + 3] + ty[(gi // 3) * 2:(gi // 3) * 2 + 2])
+    return out
+
+
 # ---- reference evaluator -----------------------------------------------------------------------------------
 def _agg_value(a, vals):
     """vals = [(t, f)] non-empty. -> list of alternative (time, value); time None = no own time (non-selector)."""
@@ -374,7 +695,15 @@ def _agg_value(a, vals):
     return sorted(set((tt, v) for t, v in vals if t == tt))
 
 
-def evaluate(ds, st, fill_prev_iteration_order=False, keep_null_rows=False, split_row=False, swap_first_last=False):
+class _Either(tuple):
+    """A cell for which the language allows several values (veq accepts any of them)."""
+
+
+COUNT_NONE = _Either((0, None))   # count() over no value at all in a multi-call statement without time buckets
+
+
+def evaluate(ds, st, fill_prev_iteration_order=False, keep_null_rows=False, split_row=False, swap_first_last=False,
+             bucket_selector_any=False):
     """Expected answer of the statement over the logical contents, ascending orientation.
     -> list of series dicts {tags: {..}, columns: [..], groups: [(time, [value tuples], need)]} or {.., alts: [(time, tuple)]}.
     groups: the actual rows at `time` must be exactly `need` rows forming a sub-multiset of the candidates
@@ -384,22 +713,23 @@ def evaluate(ds, st, fill_prev_iteration_order=False, keep_null_rows=False, spli
     The keyword options are NOT part of the semantics: they are models of known defects, used only to give a mismatch a
     specific kind (fill(previous) walking buckets in output order; rows whose selected fields are all null kept when the
     filter is on another field; the field filter applied separately to the two halves of a row completed after a flush;
-    first/last picked in iteration order under ORDER BY time DESC)."""
+    first/last picked in iteration order under ORDER BY time DESC; bucket_selector_any: first()/last() of a time bucket may be
+    the value of any point of the bucket)."""
     _, tagfn, fieldfn = _pred(st["pred"], ds)
     _, _, lo, hi, labels = _range(st["rng"], ds.T)
-    sel = st["sel"]
+    items = parse_sel(st)
     agg = is_agg(st)
-    sel_eval = sel
+    gb = st["gbtag"]
     pts = []
     sp = ds.split_point() if split_row else None
-    for si, ti, t, f, g in ds.points():
+    for si, ti, t, v in ds.rows():
         if sp == (si, ti):
-            pts.append((si, ti, t, f, None))
-            pts.append((si, ti, t, None, g))
+            for half in ds.split_halves():
+                pts.append((si, ti, t, {k: x for k, x in v.items() if k in half}))
         else:
-            pts.append((si, ti, t, f, g))
+            pts.append((si, ti, t, v))
     kept = []
-    for si, ti, t, f, g in pts:
+    for si, ti, t, v in pts:
         s = SERIES[si]
         if tagfn and not tagfn(s):
             continue
@@ -407,32 +737,30 @@ def evaluate(ds, st, fill_prev_iteration_order=False, keep_null_rows=False, spli
             continue
         if hi is not None and t > hi:
             continue
-        if fieldfn and not fieldfn(f, g):
+        if fieldfn and not fieldfn(v):
             continue
         if kept and sp == (si, ti) and kept[-1][0] == si and kept[-1][1] == ti:
             o = kept.pop()
-            f, g = (o[3] if f is None else f), (o[4] if g is None else g)
-        kept.append((si, ti, t, f, g))
-    grp = {}
-    for si, ti, t, f, g in kept:
-        s = SERIES[si]
-        if agg:
-            if f is None:
-                continue
-        elif not (keep_null_rows and fieldfn):
-            if sel == "f" and f is None:
-                continue
-            if f is None and g is None:
-                continue
-        k = s[st["gbtag"]] if st["gbtag"] else ""
-        grp.setdefault(k, []).append((t, f, g))
+            v = dict(o[3], **v)
+        kept.append((si, ti, t, v))
     out = []
-    for k in sorted(grp):
-        tags = {st["gbtag"]: k} if st["gbtag"] else {}
-        rows = grp[k]
-        if not agg:
-            cols = ["time", "f"] if sel == "f" else ["time", "f", "g"]
-            rr = [(t, (f,) if sel == "f" else (f, g)) for t, f, g in rows]
+    if not agg:
+        if any(it[0] == "star" for it in items):
+            cols = sorted(list(ds.fields) + [tg for tg in TAGS if tg != gb])
+        else:
+            cols = [it[1] for it in items]
+        selfields = [c for c in cols if c in ds.fields]
+        if not selfields:
+            return []            # only tags selected: the documented answer is empty
+        grp = {}
+        for si, ti, t, v in kept:
+            if not (keep_null_rows and fieldfn) and all(v.get(c) is None for c in selfields):
+                continue
+            k = SERIES[si][gb] if gb else ""
+            grp.setdefault(k, []).append((t, tuple(v.get(c) if c in ds.fields else SERIES[si][c] for c in cols)))
+        for k in sorted(grp):
+            tags = {gb: k} if gb else {}
+            rr = list(grp[k])
             rr.sort(key=lambda r: r[0], reverse=st["desc"])
             need_by_t = None
             if st["limit"]:
@@ -449,48 +777,79 @@ def evaluate(ds, st, fill_prev_iteration_order=False, keep_null_rows=False, spli
                 need = len(cand[t]) if need_by_t is None else need_by_t.get(t, 0)
                 if need:
                     groups.append((t, cand[t], need))
-            if groups or not st["limit"]:
-                if groups:
-                    out.append({"tags": tags, "columns": cols, "groups": groups})
-            continue
-        cols = ["time", sel]
-        vals = [(t, f) for t, f, g in rows]
+            if groups:
+                out.append({"tags": tags, "columns": ["time"] + cols, "groups": groups})
+        return out
+    # ---- calls
+    calls = [(it[1], it[2]) for it in items]
+    cols = ["time"] + [fn for fn, _ in calls]
+    single = len(calls) == 1
+    grp = {}
+    for si, ti, t, v in kept:
+        k = SERIES[si][gb] if gb else ""
+        for j, (fn, fld) in enumerate(calls):
+            if v.get(fld) is not None:
+                grp.setdefault(k, [[] for _ in calls])[j].append((t, v[fld]))
+    for k in sorted(grp):
+        tags = {gb: k} if gb else {}
+        per = grp[k]
         if not st["w"]:
-            alts = _agg_value(sel_eval, vals)
-            if swap_first_last and sel in ("first", "last"):
-                # defect model: time and value each taken from the oldest or the newest point
-                both = _agg_value("first", vals) + _agg_value("last", vals)
-                alts = sorted(set((t, v) for t, _ in both for _, v in both))
-            if alts[0][0] is None:
-                out.append({"tags": tags, "columns": cols, "alts": [(lb, (alts[0][1],)) for lb in labels]})
-            else:
-                out.append({"tags": tags, "columns": cols, "alts": [(t, (v,)) for t, v in alts]})
+            if single:
+                fn = calls[0][0]
+                alts = _agg_value(fn, per[0])
+                if swap_first_last and fn in ("first", "last"):
+                    # defect model: time and value each taken from the oldest or the newest point
+                    both = _agg_value("first", per[0]) + _agg_value("last", per[0])
+                    alts = sorted(set((t, v) for t, _ in both for _, v in both))
+                if alts[0][0] is None:
+                    out.append({"tags": tags, "columns": cols, "alts": [(lb, (alts[0][1],)) for lb in labels]})
+                else:
+                    out.append({"tags": tags, "columns": cols, "alts": [(t, (v,)) for t, v in alts]})
+                continue
+            # several calls: one row at the lower bound of the range; each cell may be any value its call allows
+            cells = []
+            for (fn, _), vals in zip(calls, per):
+                if vals:
+                    cells.append(sorted(set(v for _, v in _agg_value(fn, vals)), key=repr))
+                else:
+                    cells.append([COUNT_NONE if fn == "count" else None])
+            rows = list(itertools.product(*cells))
+            out.append({"tags": tags, "columns": cols, "alts": [(lb, r) for lb in labels for r in rows]})
             continue
         w = st["w"] * NS
         b0, b1 = lo // w * w, hi // w * w
         buckets = []
         b = b0
         while b <= b1:
-            inb = [(t, v) for t, v in vals if b <= t < b + w]
-            buckets.append((b, [(v,) for _, v in _agg_value(sel_eval, inb)] if inb else None))
+            cells = []
+            for (fn, _), vals in zip(calls, per):
+                inb = [(t, v) for t, v in vals if b <= t < b + w]
+                if inb and bucket_selector_any and fn in ("first", "last"):
+                    cells.append(sorted(set(v for _, v in inb), key=repr))
+                else:
+                    cells.append([v for _, v in _agg_value(fn, inb)] if inb else None)
+            buckets.append((b, cells))
             b += w
         fill = st["fill"]
         groups = []
         seq = list(reversed(buckets)) if fill_prev_iteration_order and st["desc"] else buckets
-        prev = None
-        for b, c in seq:
-            if c is None:
-                if fill == "none":
-                    continue
-                if fill == "0":
-                    c = [(0,)]
-                elif fill == "previous":
-                    c = prev if prev is not None else [(None,)]
+        prev = [None] * len(calls)
+        for b, cells in seq:
+            if all(c is None for c in cells) and fill == "none":
+                continue
+            row = []
+            for j, c in enumerate(cells):
+                if c is None:
+                    if fill == "0":
+                        c = [0]
+                    elif fill == "previous":
+                        c = prev[j] if prev[j] is not None else [None]
+                    else:
+                        c = [0] if calls[j][0] == "count" else [None]
                 else:
-                    c = [(0,)] if sel == "count" else [(None,)]
-            else:
-                prev = c
-            groups.append((b, c, 1))
+                    prev[j] = c
+                row.append(c)
+            groups.append((b, list(itertools.product(*row)), 1))
         groups.sort(key=lambda g_: g_[0])
         out.append({"tags": tags, "columns": cols, "groups": groups})
     return out
@@ -553,15 +912,20 @@ def rows_not_in_unlimited_answer(ans, ds, st):
     return bad
 
 
+def _call_field(st):
+    """Field of the (single) call of the statement."""
+    return agg_items(st)[0][2]
+
+
 def relaxed_selector_expectation(ds, st, any_row_time=False):
     """Like relaxed_desc_selector_expectation; with any_row_time the time may be the time of ANY row of the group's series
-    (also rows whose f is null or that lie outside the time range)."""
+    (also rows whose field is null or that lie outside the time range)."""
     exp = relaxed_desc_selector_expectation(ds, st)
     if not any_row_time:
         return exp
     _, tagfn, _ = _pred(st["pred"], ds)
     times = {}
-    for si, ti, t, f, g in ds.points():
+    for si, ti, t, v in ds.rows():
         if tagfn and not tagfn(SERIES[si]):
             continue
         times.setdefault(SERIES[si][st["gbtag"]] if st["gbtag"] else "", set()).add(t)
@@ -574,7 +938,7 @@ def relaxed_selector_expectation(ds, st, any_row_time=False):
         tmax = max(t for t, _ in r["alts"])
         # the right row, or a wrong row that carries the time of a NEWER row of the group
         out.append({"tags": e["tags"], "columns": e["columns"],
-                    "alts": list(r["alts"]) + sorted((t, v) for t in times.get(k, ()) if t > tmax for v in vals)})
+                    "alts": list(r["alts"]) + sorted(((t, v) for t in times.get(k, ()) if t > tmax for v in vals), key=repr)})
     return out
 
 
@@ -582,49 +946,61 @@ def relaxed_desc_selector_expectation(ds, st):
     """first()/last() under ORDER BY time DESC (known defect): same series as the reference, one row each, whose time is the
     time of SOME point of the group and whose value is the value of SOME point of the group (tag predicate only)."""
     _, tagfn, _ = _pred(st["pred"], ds)
+    fld = _call_field(st)
     pts = {}
-    for si, ti, t, f, g in ds.points():
-        if f is None or (tagfn and not tagfn(SERIES[si])):
+    for si, ti, t, v in ds.rows():
+        if v.get(fld) is None or (tagfn and not tagfn(SERIES[si])):
             continue
-        pts.setdefault(SERIES[si][st["gbtag"]] if st["gbtag"] else "", []).append((t, f))
+        pts.setdefault(SERIES[si][st["gbtag"]] if st["gbtag"] else "", []).append((t, v[fld]))
     out = []
     for e in evaluate(ds, st):
         k = e["tags"][st["gbtag"]] if st["gbtag"] else ""
         ps = pts.get(k, [])
         out.append({"tags": e["tags"], "columns": e["columns"],
-                    "alts": sorted(set((t, (v,)) for t, _ in ps for _, v in ps))})
+                    "alts": sorted(set((t, (v,)) for t, _ in ps for _, v in ps), key=repr)})
     return out
 
 
 def null_f_row_passes_filter(ds, st, split_row=False):
-    """Trigger of a known defect family: some row inside the tag/time predicates passes the field filter although f is null
-    (only possible when the filter is on g). With split_row the two halves of the row completed after the flush count as rows."""
+    """Trigger of a known defect family: some row inside the tag/time predicates passes the field filter although a field the
+    statement aggregates is null in it (only possible when the filter is on another field). With split_row the two halves of
+    the row completed after the flush count as rows."""
     _, tagfn, fieldfn = _pred(st["pred"], ds)
     if fieldfn is None:
         return False
     _, _, lo, hi, _ = _range(st["rng"], ds.T)
     sp = ds.split_point() if split_row else None
-    for si, ti, t, f, g in ds.points():
+    flds = [it[2] for it in agg_items(st)]
+    for si, ti, t, v in ds.rows():
         if tagfn and not tagfn(SERIES[si]):
             continue
         if (lo is not None and t < lo) or (hi is not None and t > hi):
             continue
-        halves = [(f, None), (None, g)] if sp == (si, ti) else [(f, g)]
-        for hf, hg in halves:
-            if hf is None and fieldfn(hf, hg):
+        halves = [{k: x for k, x in v.items() if k in h} for h in ds.split_halves()] if sp == (si, ti) else [v]
+        for hv in halves:
+            if any(hv.get(f) is None for f in flds) and fieldfn(hv):
                 return True
     return False
 
 
 def veq(a, b):
+    """a = actual cell, b = expected cell.  Strings, booleans and integers are compared exactly (an expected integer is the
+    exact result of integer arithmetic: 2^53 + 1 is not 2^53); as soon as a float is involved the comparison is numeric with
+    1e-9 relative tolerance (JSON does not distinguish 2 from 2.0)."""
     if a is ANY or b is ANY:
         return True
+    if isinstance(b, _Either):
+        return any(veq(a, x) for x in b)
+    if isinstance(a, _Either):
+        return any(veq(x, b) for x in a)
     if a is None or b is None:
         return a is None and b is None
-    if isinstance(a, str) or isinstance(b, str):
-        return a == b
     if isinstance(a, bool) or isinstance(b, bool):
         return a is b
+    if isinstance(a, str) or isinstance(b, str):
+        return a == b
+    if isinstance(a, int) and isinstance(b, int):
+        return a == b
     return abs(a - b) <= 1e-9 * max(1.0, abs(a), abs(b))
 
 
